@@ -35,6 +35,7 @@ func dumpAll() []byte {
 	for {
 		n := runtime.Stack(stackBuf, true)
 		if n < len(stackBuf) {
+			lastDumpLen = n
 			return stackBuf[:n]
 		}
 		stackBuf = make([]byte, 2*len(stackBuf))
@@ -183,6 +184,7 @@ func waitQuietAll(base map[int64]struct{}) bool {
 			}
 		}
 		if quiet {
+			lastQuietDump = string(stackBuf[:lastDumpLen])
 			return true
 		}
 		if time.Now().After(deadline) {
@@ -195,3 +197,6 @@ func waitQuietAll(base map[int64]struct{}) bool {
 		}
 	}
 }
+
+var lastQuietDump string
+var lastDumpLen int
